@@ -97,7 +97,7 @@ func c07(c *Ctx) {
 		}
 	}
 	s, _ := newSearch(4)
-	nSearch := c.Size(480, 20000)
+	nSearch := c.Size(480, 160000)
 	for i := 0; i < nSearch; i++ {
 		if !c.Mine(i) {
 			continue
